@@ -46,7 +46,10 @@ func (mi *radixMemIndex) Get(key []byte) ([]byte, error) {
 	sn := mi.memkv.Snapshot()
 	txn := sn.Txn(false)
 	defer txn.Abort()
+	return mi.getInTxn(txn, key)
+}
 
+func (mi *radixMemIndex) getInTxn(txn *memdb.Txn, key []byte) ([]byte, error) {
 	// will make sure the key is exactly match if not nil
 	_, v, err := txn.First(key)
 	if err != nil {
